@@ -453,8 +453,29 @@ def handlePoints (j : Json) : P Json := do
       ("back", rToJson (fun (b : PLAVal) => Json.mkObj [("dtype", .str b.dtype), ("rows", (b.rows : Nat)), ("cols", (b.cols : Nat)),
         ("cells", strListToJson b.cells)]) back)])
 
+-- ---------- legacy import (C17)
+
+def tokShape (t : String) : List Nat :=
+  let parts := t.splitOn "|"
+  let shp := parts.getD (parts.length - 2) ""
+  let inner := ((shp.replace "[" "").replace "]" "")
+  if inner.trimAscii.toString.isEmpty then [] else
+  (inner.splitOn ",").map (fun s => s.trimAscii.toString.toNat?.getD 0)
+
+def handleLegacy (j : Json) : P Json := do
+  let st : Option FileState ← match optField j "h5", optField j "junk" with
+    | some o, _ => do pure (some (.h5 (← objOfJson o)))
+    | none, some x => do pure (some (.junk (← x.getStr?)))
+    | none, none => pure none
+  match readNonEMD realOps tokShape st with
+  | .ok (.single n a) => pure (Json.mkObj [("kind", "single"), ("name", .str n), ("array", arrayValToJson a)])
+  | .ok (.many l) => pure (Json.mkObj [("kind", "many"),
+      ("arrays", Json.mkObj (l.map (fun (n, a) => (n, arrayValToJson a))))])
+  | .error e => pure (errToJson e)
+
 def handle (op : String) (j : Json) : P Json := do
   match op with
+  | "legacy" => handleLegacy j
   | "points" => handlePoints j
   | "md" => handleMd j
   | "array" => handleArray j
